@@ -3,6 +3,7 @@ import LanceModel.C43.InterLemmas
 import LanceModel.C43.ExcludeLemmas
 import LanceModel.C43.SetIdLemmas
 import LanceModel.C43.MergeLemmas
+import LanceModel.C43.InterLeftLemmas
 /-
 C43 property theorems.  Statement (properties.jsonl): schema projection by names or ids, exclusion, intersection and
 merging, and the union/subtract/intersect operations on projections, behave as the corresponding set operations on field
@@ -255,6 +256,29 @@ example : exS.wf = true := by rfl
 example : dtAllL (exS.projectByIds [6, 1] false) = true := by rfl
 example : (match Schema.inter exS false (exS.projectByIds [6, 1] false) with
     | .ok r => idsL r | .error _ => []) = [0, 1, 3, 4, 6] := by rfl
+
+/-- general half of the intersection law, for ANY two schemas (no relation between their ids, names or types assumed)
+    and both `intersection` / `intersection_ignore_types`: if every id of the left operand `a` is assigned, each top-level
+    field of the result is a sub-tree-pruned copy (`Sub`) of the same-named top-level field of `a`; hence every field of
+    the intersection, at any depth, carries the id, name, type, nullability and metadata of the corresponding field of
+    `a`; the right operand's ids never show up. -/
+theorem intersection_keeps_left_ids (a b r : Schema) (ig : Bool) (hnn : nonnegL a = true)
+    (h : Schema.inter a ig b = .ok r) :
+    ∀ x ∈ r, ∃ f, findByName x.name a = some f ∧ Sub x f :=
+  Schema.inter_keeps_left a ig hnn b r h
+
+/-- field-level version, used for nested fields: the result of `Field::intersection` is a pruned copy of `self` -/
+theorem field_intersection_keeps_left (f o r : Field) (ig : Bool) (hnn : f.nonneg = true)
+    (h : f.inter ig o = .ok r) : Sub r f := Field.inter_keeps_left ig f o r hnn h
+
+private def exA : Schema :=
+  [.mk ['a'] 1 .struct true 0 [.mk ['x'] 2 (.leaf 0) true 0 [], .mk ['y'] 4 (.leaf 0) true 0 []], .mk ['b'] 5 (.leaf 1) true 0 []]
+private def exB : Schema :=
+  [.mk ['b'] 0 (.leaf 1) false 3 [], .mk ['a'] 17 .struct true 0 [.mk ['y'] 9 (.leaf 0) true 0 [], .mk ['x'] 8 (.leaf 0) true 0 []]]
+-- same names, different assigned ids on both sides (larger and smaller): the left ids win in both directions
+example : nonnegL exA = true := by rfl
+example : (match Schema.inter exA false exB with | .ok r => idsL r | .error _ => []) = [5, 1, 2, 4] := by rfl
+example : (match Schema.inter exB false exA with | .ok r => idsL r | .error _ => []) = [17, 9, 8, 0] := by rfl
 
 /-! ## merge -/
 
